@@ -50,7 +50,7 @@ def gen_definition(rng, fam):
     names = ["t%02d" % i for i in range(n)]
     wf = {"version": 1.0}
     vars_ = [{"x": 0}, {"y": "y0"}, {"lst": [1, 2, 3][: rng.randint(0, 3)] if rng.random() < 0.3 else [1, 2, 3]},
-             {"n": 0}, {"d": 1}, {"neg": -1}]
+             {"n": 0}, {"d": 1}, {"neg": -1}, {"ks": "k0"}]
     if rng.random() < fam["p_dictval"]:
         vars_.append({"dv": {"a": 1}})
     else:
@@ -84,10 +84,11 @@ def gen_definition(rng, fam):
 
     def pub_value(t):
         if rng.random() < 0.04:
-            # a dict whose KEY is an expression: a string key ("y0"), or -- as a failing expression -- a list
+            # a dict whose KEY is an expression: a string key (ks is never re-published, so it stays "k0"; keys that
+            # evaluate to other hashable values are outside the model), or -- as a failing expression -- a list
             if rng.random() < fam["p_bad"] * 4:
                 return {L.ctx("lst"): 1}
-            return {L.ctx("y"): token(t)}
+            return {L.ctx("ks"): token(t)}
         r = rng.random()
         if r < 0.45:
             return token(t)
